@@ -41,6 +41,16 @@ func init() {
 		Assumptions: []string{"the receiver applies versions in order, one state root per version derived from the previous one and at most one I/O root derived from empty"},
 	})
 	reg(&core.Property{
+		ID: "C12", Level: "exploration",
+		Batches: []core.Batch{
+			{Name: "create-restore", Engine: store.CheckpointEngine{}, Quick: 2500, Thorough: 60000,
+				Rule: "a run is non-trivial when the tree is non-empty and at least one chunk was created and restored"},
+		},
+		Real:        []string{"storage/mkvs/checkpoint file creator, sequential and parallel chunker (real goroutines), restorer, chunk proof verification", "badger and pathbadger multipart insert on tmpfs directories"},
+		Stub:        []string{"goroutine scheduling of the parallel chunker: a harness scheduler parks every chunk task at verifhook points and releases one at a time in a seeded order", "concurrent RestoreChunk callers are interleaved inline at the restorer hooks", "chunk transport (bytes handed over directly, corrupted by seeded operators)"},
+		Assumptions: []string{"the checkpoint metadata (root, digests) comes from a trusted source unless the corruption operator says the attacker also controls the digest list"},
+	})
+	reg(&core.Property{
 		ID: "C04", Level: "exploration",
 		Batches: []core.Batch{
 			{Name: "byzantine", Engine: store.ProofEngine{}, Quick: 60000, Thorough: 2000000,
